@@ -158,6 +158,29 @@ func init() {
 		}
 		return "ok"
 	})
+	// flt.spell16 half <0xH digits> <16 hex digits of the same value as a double>: the legacy 16-digit spelling of a half
+	// must denote the same value and print the same literal as the 0xH spelling
+	reg("flt.spell16", func(a []string) string {
+		typ := floatKind(a[0])
+		c1, err := constant.NewFloatFromString(typ, hexPrefix(a[0])+a[1])
+		if err != nil {
+			return "FAIL parse-error"
+		}
+		c2, err := constant.NewFloatFromString(typ, "0x"+a[2])
+		if err != nil {
+			return "FAIL parse-error-16"
+		}
+		if c1.NaN != c2.NaN || c1.X.Signbit() != c2.X.Signbit() || (!c1.NaN && c1.X.Cmp(c2.X) != 0) {
+			return "FAIL value " + c1.Ident() + " vs " + c2.Ident()
+		}
+		if c1.Ident() != c2.Ident() {
+			return "FAIL literal " + c1.Ident() + " vs " + c2.Ident()
+		}
+		if c3, ok := parseViaAsm(a[0], "0x"+a[2]); !ok || c3.Ident() != c1.Ident() {
+			return "FAIL asm"
+		}
+		return "ok"
+	})
 	// flt.dec <kind> <decimal text>: a decimal literal that LLVM accepts (exactly representable) must be read as exactly that value
 	reg("flt.dec", func(a []string) string {
 		typ := floatKind(a[0])
